@@ -167,7 +167,7 @@ def sint_ref(v):
 
 
 def sum16_ref(d):
-    s = sum((d[i] << 8) | (d[i + 1] if i + 1 < len(d) else 0) for i in range(0, len(d), 2))
+    s = (sum(d[0::2]) << 8) + sum(d[1::2])          # sum of the big-endian 16-bit words, odd tail padded on the right (unbounded int)
     while s >> 16:
         s = (s & 0xffff) + (s >> 16)
     return (~s) & 0xffff
@@ -277,6 +277,29 @@ def check_crc(h, data):
     return len(data) >= 2, ["odd" if len(data) & 1 else "even"]
 
 
+def check_crc_large(h, size, pattern, seed):
+    """128 KiB .. 1 MiB messages: the plain sum of the 16-bit words (and of the octets) outgrows 32 bits only here."""
+    if pattern == 0:
+        data = b"\xff" * size
+    elif pattern == 1:
+        data = (b"\xff\xfe" * (size // 2 + 1))[:size]
+    elif pattern == 2:
+        data = bytes(b | 0x80 for b in hashlib.shake_128(seed.to_bytes(4, "big")).digest(size))
+    elif pattern == 3:
+        data = hashlib.shake_128(seed.to_bytes(4, "big")).digest(size)
+    else:
+        data = bytes(0x20 + b % 95 for b in hashlib.shake_128(seed.to_bytes(4, "big")).digest(size))
+    r = ok(h.call("crcall", hx(data)), "crcall")
+    c16, c32, s16, s8 = int(r[1]), int(r[2]), int(r[3]), int(r[4])
+    what = "%d bytes, pattern %d, seed %d" % (size, pattern, seed)
+    assert s16 == sum16_ref(data), "CalcCheckSum16(%s) = %#x, RFC 1071 gives %#x" % (what, s16, sum16_ref(data))
+    assert s8 == sum8_ref(data), "CalcCheckSum8(%s) = %#x, expected %#x" % (what, s8, sum8_ref(data))
+    assert c32 == zlib.crc32(data), "CalcCrc32(%s) = %#x, zlib.crc32 gives %#x" % (what, c32, zlib.crc32(data))
+    assert c16 == binascii.crc_hqx(data, 0xffff), "CalcCrc16(%s) = %#x, binascii.crc_hqx(.,0xffff) gives %#x" % (what, c16, binascii.crc_hqx(data, 0xffff))
+    wraps = ((sum(data[0::2]) << 8) + sum(data[1::2])) >> 32 != 0
+    return wraps, ["pattern%d" % pattern, "word_sum_ge_2^32" if wraps else "word_sum_lt_2^32"]
+
+
 def check_md5(h, data, cuts):
     cuts = sorted(c % (len(data) + 1) for c in cuts)
     got = ok(h.call("md5", hx(data), *[str(c) for c in cuts]), "md5")[0]
@@ -334,6 +357,11 @@ TESTS = {
     "url_roundtrip": (check_url, dict(raw=st.binary(max_size=200), path_mode=st.booleans(), safe=st.sampled_from(["", "/", "/:@", "~-._", "!*'()"]))),
     "url_decode_text": (check_url_decode_text, dict(text=_url_text)),
     "crc_checksum": (check_crc, dict(data=st.binary(max_size=2000))),
+    # few, large examples (third element: share of --examples, at least 6): sizes at the 2^32 word-sum edge of all-0xff data
+    # (131076), at 2^18 / 2^19 / 2^20 +- a few bytes and anywhere in 128 KiB .. 1 MiB
+    "crc_checksum_large": (check_crc_large, dict(
+        size=st.one_of(st.builds(lambda b, d: b + d, st.sampled_from([131072, 131076, 1 << 18, 1 << 19, 1 << 20]), st.integers(-4, 8)), st.integers(131072, 1 << 20)),
+        pattern=st.sampled_from([0, 0, 1, 2, 2, 3, 3, 4]), seed=st.integers(0, 2**32 - 1)), 0.04),
     "md5": (check_md5, dict(data=_md5_len.flatmap(lambda n: st.binary(min_size=n, max_size=n)), cuts=st.lists(st.integers(0, 5000), max_size=6))),
     "aes": (check_aes, dict(key=st.binary(min_size=16, max_size=16), blk=st.binary(min_size=16, max_size=16))),
     "scalable_int": (check_sint, dict(v=_sint_values())),
@@ -379,7 +407,9 @@ def main():
              "nt_hashes": [], "classes": {}, "counters": {}, "samples": [], "failures": []}
     hashes = set()
     rc = 0
-    for name, (fn, strat) in TESTS.items():
+    for name, entry in TESTS.items():
+        fn, strat = entry[0], entry[1]
+        n_examples = a.examples if len(entry) < 3 else max(6, int(a.examples * entry[2]))
         if a.only and a.only != name:
             continue
         last = {}
@@ -396,7 +426,7 @@ def main():
             if len(stats["samples"]) < 8 and stats["evaluations"] in (1, 10, 100, 1000, 10000):
                 stats["samples"].append("#%s\n%s %s\n" % ("nt" if nt else "plain", name, json.dumps(enc_args(kw))[:600]))
 
-        test = hseed(a.seed)(settings(max_examples=a.examples, database=None, deadline=None, derandomize=False,
+        test = hseed(a.seed)(settings(max_examples=n_examples, database=None, deadline=None, derandomize=False,
                                       suppress_health_check=list(HealthCheck))(given(**strat)(body)))
         try:
             test()
